@@ -299,6 +299,14 @@ def blocks(ctx):
                     params = [a for a in params if a * scale * max(abs(v) for v in A) / S.DEN <= lim]
                 out.append({"measure": measure, "N": N, "A": Ap if measure == "iso" else A, "params": params,
                             "scale": scale, "dtype": dtype, "via": via, "shape": shape})
+        # heavy tail: one outcome two orders of magnitude worse than the others
+        for dtype in ("float64", "float32"):
+            for N in (2, 3):
+                heavy = [2, 8, 800] if measure == "iso" else [-800, 0, 4]
+                lim = 600.0 if dtype == "float64" else 80.0
+                params = [a for a in PARAMS[measure] if measure != "eloss" or a * 100 <= lim]
+                out.append({"measure": measure, "N": N, "A": heavy, "params": params, "scale": 1.0,
+                            "dtype": dtype, "via": "module", "shape": "2d"})
         if measure in RISK:
             # heavy common cash component (the P&L of a funded position): x + 2^20 resp. x + 1024
             out.append({"measure": measure, "N": 3, "A": A, "params": PARAMS[measure], "scale": 1.0,
